@@ -25,6 +25,14 @@ pub struct Case {
     pub perm_seeds: Vec<u64>,
     /// also run in a child process / threads (costly, so only on some cases)
     pub cross_process: bool,
+    /// batch entry point: 0 = with_topology_guarantee_and_options, 1 = ..._with_construction_statistics,
+    /// 2 = DelaunayTriangulationBuilder (older replay files: 0)
+    #[serde(default)]
+    pub entry: u8,
+}
+
+thread_local! {
+    static ENTRY: std::cell::Cell<u8> = const { std::cell::Cell::new(0) };
 }
 
 fn vertices<const D: usize>(pts: &[Vec<f64>], order: &[usize], salt: u64) -> Vec<Vertex<f64, i32, D>> {
@@ -35,12 +43,17 @@ fn vertices<const D: usize>(pts: &[Vec<f64>], order: &[usize], salt: u64) -> Vec
 fn build<K: Kern<D>, const D: usize>(pts: &[Vec<f64>], order: &[usize], salt: u64, opts: &OptSpec) -> Result<(Fingerprint, Snap), String> {
     let v = vertices::<D>(pts, order, salt);
     let k = K::make();
-    match Dt::<K, i32, D>::with_topology_guarantee_and_options(&k, &v, opts.guarantee(), opts.options()) {
+    let built = match ENTRY.with(|e| e.get()) % 3 {
+        0 => Dt::<K, i32, D>::with_topology_guarantee_and_options(&k, &v, opts.guarantee(), opts.options()).map_err(|e| e.to_string()),
+        1 => Dt::<K, i32, D>::with_topology_guarantee_and_options_with_construction_statistics(&k, &v, opts.guarantee(), opts.options()).map(|(dt, _)| dt).map_err(|e| e.to_string()),
+        _ => delaunay::core::builder::DelaunayTriangulationBuilder::from_vertices(&v).topology_guarantee(opts.guarantee()).construction_options(opts.options()).build_with_kernel::<K, ()>(&k).map_err(|e| e.to_string()),
+    };
+    match built {
         Ok(dt) => {
             let s = Snap::of(dt.tds());
             Ok((fingerprint(&s, "", false), s))
         }
-        Err(e) => Err(e.to_string()),
+        Err(e) => Err(e),
     }
 }
 
@@ -92,6 +105,7 @@ pub fn emit_fingerprint(path: &str) -> i32 {
 }
 
 fn one_hash(case: &Case) -> String {
+    ENTRY.with(|e| e.set(case.entry));
     let n = case.points.pts.len();
     let id: Vec<usize> = (0..n).collect();
     macro_rules! go {
@@ -136,7 +150,7 @@ fn run<K: Kern<D>, const D: usize>(case: &Case, log: &mut CaseLog) {
     if case.cross_process {
         // 8 concurrent threads
         let results: Vec<String> = std::thread::scope(|sc| {
-            let hs: Vec<_> = (0..8).map(|_| sc.spawn(|| fp_hash(&build::<K, D>(pts, &id, case.salt, &case.opts)))).collect();
+            let hs: Vec<_> = (0..8).map(|_| sc.spawn(|| { ENTRY.with(|e| e.set(case.entry)); fp_hash(&build::<K, D>(pts, &id, case.salt, &case.opts)) })).collect();
             hs.into_iter().map(|h| h.join().unwrap_or_else(|_| "panic".into())).collect()
         });
         log.evals += 8;
@@ -276,6 +290,8 @@ pub fn exec(case: &Case, log: &mut CaseLog) {
     if case.points.pts.iter().any(|p| p.len() != case.dim) {
         return;
     }
+    ENTRY.with(|e| e.set(case.entry));
+    log.class(format!("entry:{}", case.entry % 3));
     match (case.dim, case.robust) {
         (2, false) => run::<FastKernel<f64>, 2>(case, log),
         (3, false) => run::<FastKernel<f64>, 3>(case, log),
@@ -291,8 +307,8 @@ pub fn exec(case: &Case, log: &mut CaseLog) {
 
 pub fn strategy(dim: usize, thorough: bool, general: bool) -> BoxedStrategy<Case> {
     let nmax = if general { (max_n(dim, false)).min(if dim >= 4 { 9 } else { 12 }) } else { max_n(dim, thorough).min(if dim >= 4 { 9 } else { 20 }) };
-    (any::<bool>(), opt_spec(), any::<u64>(), point_set_from(dim, dim + 1, nmax, if general { GENERAL_FAMILIES } else { ALL_FAMILIES }), proptest::collection::vec(any::<u64>(), 2..5), prop_oneof![1 => Just(true), 7 => Just(false)])
-        .prop_map(move |(robust, opts, salt, points, perm_seeds, cross_process)| Case { dim, robust, opts, salt, points, perm_seeds, cross_process })
+    (any::<bool>(), opt_spec(), any::<u64>(), point_set_from(dim, dim + 1, nmax, if general { GENERAL_FAMILIES } else { ALL_FAMILIES }), proptest::collection::vec(any::<u64>(), 2..5), prop_oneof![1 => Just(true), 7 => Just(false)], prop_oneof![2 => Just(0u8), 2 => Just(1u8), 1 => Just(2u8)])
+        .prop_map(move |(robust, opts, salt, points, perm_seeds, cross_process, entry)| Case { dim, robust, opts, salt, points, perm_seeds, cross_process, entry })
         .boxed()
 }
 
@@ -324,7 +340,7 @@ pub fn meta() -> super::Meta {
     super::Meta {
         id: ID,
         level: "exploration",
-        rule: "case = point set (all families for determinism, general/fine families n <= 12 for the uniqueness part) with strategy-chosen UUIDs and data, kernel, ConstructionOptions with fixed seeds, 2-4 permutations of the input slice (reverse, rotations, seeded shuffles); (i) the same input and options built twice in one thread, and on 1/8 of the cases in 8 concurrent threads and in a freshly spawned child process, must give identical fingerprints (vertex set, cells as UUID sets, neighbour relation) and the same Ok/Err class; (ii) with Lexicographic / Morton / Hilbert ordering every permutation must give the identical fingerprint, asserted only for pairwise distinct coordinates with distances above the dedup tolerance; (iii) in exact general position every Ok result of the configured options, of four further ordering x dedup x retry configurations and of incremental insertion must equal the brute-force Delaunay triangulation of its surviving (unperturbed) vertices; evaluations = constructions compared; non-trivial = order-independence case with >= 2D+2 points and Ok, or >= 3 configurations judged against the reference; distinct by (D, kernel, options, sorted coordinates)",
+        rule: "case = batch entry point (options constructor, its construction-statistics twin, or the builder), point set (all families for determinism, general/fine families n <= 12 for the uniqueness part) with strategy-chosen UUIDs and data, kernel, ConstructionOptions with fixed seeds, 2-4 permutations of the input slice (reverse, rotations, seeded shuffles); (i) the same input and options built twice in one thread, and on 1/8 of the cases in 8 concurrent threads and in a freshly spawned child process, must give identical fingerprints (vertex set, cells as UUID sets, neighbour relation) and the same Ok/Err class; (ii) with Lexicographic / Morton / Hilbert ordering every permutation must give the identical fingerprint, asserted only for pairwise distinct coordinates with distances above the dedup tolerance; (iii) in exact general position every Ok result of the configured options, of four further ordering x dedup x retry configurations and of incremental insertion must equal the brute-force Delaunay triangulation of its surviving (unperturbed) vertices; evaluations = constructions compared; non-trivial = order-independence case with >= 2D+2 points and Ok, or >= 3 configurations judged against the reference; distinct by (D, kernel, options, sorted coordinates)",
         assumptions: &[
             "schedules: concurrent constructions are run, interleavings are not controlled (DESIGN section 5)",
             "results with perturbed vertices are not compared with the reference of the unperturbed input",
